@@ -16,7 +16,7 @@
      notemp s   : no indexed key and no pending key is named like a cache temp file (".sccachetmp...")
      op_notemp  : the op does not name such a key *)
 From Coq Require Import List NArith Bool.
-From Sccache Require Import Base.Sx Model.Lru Model.LruPut Proofs.Lru Proofs.LruPut.
+From Sccache Require Import Base.Sx Model.Lru Model.LruPut Model.LruLazy Proofs.Lru Proofs.LruPut Proofs.LruLazy.
 Import ListNotations.
 Local Open Scope N_scope.
 
@@ -151,7 +151,30 @@ Theorem C07_put_never_wedges :
 Proof. exact C07_put_never_wedges_proof. Qed.
 Print Assumptions C07_put_never_wedges.
 
+(* The disk cache is opened lazily by the first request (Model/LruLazy.v: LazyDiskCache = Uninit root | Init,
+   with an open-fault oracle).  However many open attempts fail, and whatever happens in between, the state
+   keeps belonging to the CONFIGURED root, capacity and directory ([lazy_ok]: still Uninit with exactly these,
+   or Init on that root with the accounting invariant, nothing reserved, that capacity), and the next request
+   whose open does not fail is served from there: an entry that fits is stored and indexed. *)
+Theorem C07_lazy_open_recovers :
+  forall root c dir ops, let l := lrun (LUninit root c dir) ops in
+    lazy_root l = root /\ lazy_ok root c dir l /\
+    forall k n, n <= c ->
+      exists s', lstep l (LPut k n None false) = (LInit root s', LD (DP POk)) /\
+                 alookup k (index s') = Some n.
+Proof. exact C07_lazy_open_recovers_proof. Qed.
+Print Assumptions C07_lazy_open_recovers.
+
 (* ---------------- non-vacuity ---------------- *)
+
+(* two requests whose open fails, then a store: it lands in the configured root and is served *)
+Example C07_ex_lazy_open_retry :
+  let a := [97; 47; 97; 47; 97] in let root := [114] in
+  let l := lrun (LUninit root 100 (empty 100)) [LGet a true; LPut a 40 None true; LPut a 40 None false; LGet a true] in
+  match l with LInit r s => r = root /\ index s = [(a, 40)] | LUninit _ _ _ => False end /\
+  snd (lstep (LUninit root 100 (empty 100)) (LGet a true)) = LOpenErr.
+Proof. vm_compute. repeat split. Qed.
+
 
 (* three stores whose writes fail (after 0, 10 and 59 bytes) beside a stored entry: nothing stays reserved, the
    stored entry is still there, and an entry filling the rest of the cache is accepted *)
